@@ -5,6 +5,7 @@
 package sx
 
 import (
+	"go/constant"
 	"go/token"
 	"go/types"
 	"sort"
@@ -467,11 +468,25 @@ func IsReturn(n Node) bool {
 
 // IsExit matches returns and panics.
 func IsExit(n Node) bool {
-	switch n.Instr().(type) {
-	case *ssa.Return, *ssa.Panic:
+	switch x := n.Instr().(type) {
+	case *ssa.Return:
 		return true
+	case *ssa.Panic:
+		return !syntheticSelectPanic(x)
 	}
 	return false
+}
+
+// syntheticSelectPanic: the panic go/ssa emits behind the case dispatch of a
+// blocking select ("blocking select matched no case"). It is not reachable:
+// a blocking select always matches one of its cases.
+func syntheticSelectPanic(p *ssa.Panic) bool {
+	mi, ok := p.X.(*ssa.MakeInterface)
+	if !ok {
+		return false
+	}
+	c, ok := mi.X.(*ssa.Const)
+	return ok && c.Value != nil && c.Value.Kind() == constant.String && constant.StringVal(c.Value) == "blocking select matched no case"
 }
 
 // CondEdges returns the (true, false) edges leaving an If instruction.
